@@ -21,7 +21,10 @@ PROVED = ("for EVERY byte string and EVERY finite schedule of GetData(k)/GetInte
           "decoder terminates on every input (each code but the last consumes a bit); window invariant: the circular buffer holds the "
           "last 4096 bytes of the unbounded history through literals and overlapping matches; offsets are 12-bit, matches 3..60 bytes, "
           "buffer size / indices / waiting count stay < 4096, maxFill + 60 < 4096 (regenerated constant), tree stores in bounds (C15); "
-          "GetOffsetModifiers translated from the clang AST equals the model's table; regenerated constants equal the model's")
+          "GetOffsetModifiers translated from the clang AST equals the model's table; regenerated constants equal the model's; "
+          "BitStreamReader with its one-byte shift register (the model the bits.ops correspondence runs) returns the same values and "
+          "cursors as the pure bit function on every op sequence; on well-formed trees no tree query is ever refused, a code is refused "
+          "iff the root counter is full (65535 = 314 + 65221 updates), and a decode that ends at capacity stopped exactly there")
 PARTIAL = ("the encoder round-trip law (decode(encode tokens) = payload ++ <8 codes) is decided by the three-encoder / payload-prefix "
            "correspondence only, not by a theorem; BitStreamReader's shift register is tied to the pure bit function by the bits.ops "
            "correspondence (direct oracle = the property's own description); real heap layout is not modelled: 'stays within the decoder's own memory' is the theorem that every model index is "
